@@ -163,6 +163,8 @@ def gen_discovery(rnd, idx):
         cp = [40, 2]
         dirs.append([40])
         put([40, 2])
+        if rnd.random() < 0.6:
+            put([40, 1])                                   # the dotted name next to the NAMED file: not looked at
     elif ck < 0.26:
         cp = [41]                                          # does not exist
     elif ck < 0.32:
@@ -171,6 +173,9 @@ def gen_discovery(rnd, idx):
         cp = [40, 9]                                       # a config file under another name
         dirs.append([40])
         put([40, 9])
+        for nm in (1, 2):
+            if rnd.random() < 0.6:
+                put([40, nm])                              # standard names next to the named file: not looked at
     return {"kind": "discovery", "id": idx, "files": files, "dirs": dirs, "home": home, "home_is_file": home_is_file,
             "cfg": cfg, "cp": cp, "start": start}
 
